@@ -10,6 +10,7 @@ package shellparse
 
 //@ func Parse
 //@ params cmd
+//@ locals args current inQuotes quoteChar hasContent runes i r next
 //@ props C17
 //@ loop 1 invariant index: 0 <= i && i <= len(runes)
 //@ loop 1 invariant args: 0 <= len(args) && len(args) <= cap(args) && cap(args) < 1<<40 && (cap(args) > 0 ==> mine(args.data, cap(args)*16))
